@@ -86,6 +86,24 @@ def _k2off7(seed):
     return Driver("k2off7", [np.round(two_regime_series(9, 1, 3), 2) + 3e7], W=2, K=2, beta=1.0, m=2)
 
 
+@driver("long6k")
+def _long6k(seed):
+    # clusters of more than 4096 windows (block-wise processing, 12-bit counters): 6200 stacked points
+    return Driver("long6k", [two_regime_series(6201, 1, 11, split=5000)], W=2, K=2, beta=5.0, m=2)
+
+
+def long_inits(d):
+    """two initial labellings for the long driver: the regimes themselves (5000 / 1200) and a 4097 / 2103 split"""
+    return [tuple(0 if i < 5000 else 1 for i in range(d.Tp)), tuple(1 if i < 4097 else 0 for i in range(d.Tp))]
+
+
+@driver("k2tie")
+def _k2tie(seed):
+    # mirror-image data: with the labelling 1,1,1,1,0,0,0,0 the two fits are exact mirror images and the two
+    # zeros tie EXACTLY between the clusters - which label a tie gets must not depend on the form of beta
+    return Driver("k2tie", [np.array([[3.0], [2.0], [1.0], [0.0], [0.0], [-1.0], [-2.0], [-3.0]])], W=1, K=2, beta=0.0, m=2)
+
+
 @driver("k2one")
 def _k2one(seed):
     # ONE regime, two clusters: clusters keep emptying and being refilled (repopulation in several rounds)
